@@ -674,7 +674,14 @@ pub fn c09_item<F: Fam>(ctx: &Ctx, ast: &Ast, full_schedules: bool) {
     }
     // packet = control byte ++ varint(declared body length) ++ streamed body
     let mut body = Vec::new();
-    if let Some((control, declared, r)) = F::body(&pkt, &mut body) {
+    let streamed = match guard(|| F::body(&pkt, &mut body)) {
+        Ok(x) => x,
+        Err(m) => {
+            ctx.violation(key::<F>("C09", ast, "stream-panic"), format!("streaming the body into a Vec panics: {m} @ {}", last_panic_loc()), case_of::<F>(ast));
+            None
+        }
+    };
+    if let Some((control, declared, r)) = streamed {
         ctx.trans(1);
         let mut expect = vec![control];
         if declared as u64 <= num::VARINT_MAX as u64 {
